@@ -1,7 +1,11 @@
 #!/usr/bin/env python3
 """Evaluate one seeded change against the checks.
 
-usage: tools/eval_mutant.py <mutant_dir> [--props C01,C02] [--thorough] [--seeds 0,1]
+usage: tools/eval_mutant.py <mutant_dir> [--props C01,C02] [--thorough] [--seeds 0,1] [--scratch]
+
+With --scratch nothing touches /repo: a scratch git worktree of /repo's HEAD is created under /tmp/evalmut, the patch is applied
+there, the checks run against it (VERIF_REPO) with their evidence and scratch output redirected (VERIF_EVIDENCE_DIR,
+VERIF_OUT_DIR), and the worktree is removed afterwards; several evaluations can then run side by side.
 
 <mutant_dir> holds patch.diff, demo.py, meta.json. Steps (all against /repo itself, restored afterwards):
   1. /repo must be clean; demo.py passes (exit 0) on the clean tree;
@@ -32,15 +36,32 @@ def main():
             props = args[i + 1].split(",")
         if a == "--seeds":
             seeds = args[i + 1].split(",")
+    scratch = "--scratch" in args
+    global REPO
+    wt = None
+    if scratch:
+        wt = os.path.join("/tmp/evalmut", os.path.basename(d.rstrip("/")) + "-" + str(os.getpid()))
+        os.makedirs("/tmp/evalmut", exist_ok=True)
+        rc, txt = sh(["git", "-C", "/repo", "worktree", "add", "--detach", wt, "HEAD"])
+        if rc != 0:
+            print(json.dumps({"error": "cannot create scratch worktree: " + txt[-300:]}))
+            return 2
+        REPO = wt
     meta = json.load(open(os.path.join(d, "meta.json"))) if os.path.exists(os.path.join(d, "meta.json")) else {}
     if props is None:
         props = [meta.get("property", "C01")]
     out = {"mutant": d, "props": props}
     rc, txt = sh(["git", "-C", REPO, "status", "--porcelain"])
-    if txt.strip():
+    if txt.strip() and not scratch:
         print(json.dumps({"error": "/repo is not clean", "status": txt}))
         return 2
     env = dict(os.environ, PYTHONPATH=REPO)
+
+    def cenv(seed):
+        e = dict(os.environ, VERIF_SEED=seed)
+        if scratch:
+            e.update(VERIF_REPO=wt, VERIF_EVIDENCE_DIR=os.path.join(wt, ".verif-evidence"), VERIF_OUT_DIR=os.path.join(wt, ".verif-out"))
+        return e
     demo = os.path.join(d, "demo.py")
     rc, txt = sh([PY, demo], cwd="/tmp", env=env, timeout=300)
     out["demo_clean_rc"] = rc
@@ -63,20 +84,24 @@ def main():
             res = []
             for s in seeds:
                 t0 = time.time()
-                rc, txt = sh([os.path.join(VERIF, "check"), p, "--tier", "quick"], cwd=VERIF, env=dict(os.environ, VERIF_SEED=s), timeout=3600)
+                rc, txt = sh([os.path.join(VERIF, "check"), p, "--tier", "quick"], cwd=VERIF, env=cenv(s), timeout=3600)
                 res.append({"tier": "quick", "seed": s, "rc": rc, "wall": round(time.time() - t0, 1),
                             "lines": [l for l in txt.split("\n") if l.startswith("VIOLATION") or l.startswith("KNOWN") or "INFRA" in l][:4]})
             caught = any(r["rc"] == 1 for r in res)
             if thorough or not caught:
                 t0 = time.time()
-                rc, txt = sh([os.path.join(VERIF, "check"), p, "--tier", "thorough"], cwd=VERIF, env=dict(os.environ, VERIF_SEED=seeds[0]), timeout=7200)
+                rc, txt = sh([os.path.join(VERIF, "check"), p, "--tier", "thorough"], cwd=VERIF, env=cenv(seeds[0]), timeout=7200)
                 res.append({"tier": "thorough", "seed": seeds[0], "rc": rc, "wall": round(time.time() - t0, 1),
                             "lines": [l for l in txt.split("\n") if l.startswith("VIOLATION") or l.startswith("KNOWN") or "INFRA" in l][:4]})
             out["checks"][p] = res
     finally:
-        sh(["git", "-C", REPO, "checkout", "--", "."])
-        rc, txt = sh(["git", "-C", REPO, "status", "--porcelain"])
-        out["repo_clean_after"] = (txt.strip() == "")
+        if scratch:
+            sh(["git", "-C", "/repo", "worktree", "remove", "--force", wt])
+            out["repo_clean_after"] = not os.path.exists(wt)
+        else:
+            sh(["git", "-C", REPO, "checkout", "--", "."])
+            rc, txt = sh(["git", "-C", REPO, "status", "--porcelain"])
+            out["repo_clean_after"] = (txt.strip() == "")
     out["valid_mutant"] = out.get("demo_clean_rc") == 0 and out.get("demo_patched_rc", 0) != 0 and out.get("suite_passed", 0) >= 82 and out.get("suite_failed", 1) == 0
     out["caught_quick"] = {p: any(r["rc"] == 1 and r["tier"] == "quick" for r in rs) for p, rs in out.get("checks", {}).items()}
     out["caught_any"] = {p: any(r["rc"] == 1 for r in rs) for p, rs in out.get("checks", {}).items()}
